@@ -449,4 +449,27 @@ theorem api_panicking_calls_register_nothing (ops : List ApiOp) : ∀ (a : Api),
 example : (ApiOp.add 0 [.pfx "/v1", .jwt "short"]).panics = true ∧ (ApiOp.add 0 [.jwtTransition "secret-aaaa" ""]).panics = false := by
   decide
 
+/-! ### `WithCors` (as implemented) -/
+
+/-- **witness (as implemented): under `WithCors` an `OPTIONS` request is never dispatched** — the CORS middleware in front
+of the patRouter answers it, whatever routes are registered; every other method goes to the patRouter unchanged, whose
+405 situation is answered by `cors.NotAllowedHandler` (404, no Allow header) unless a later `WithNotAllowedHandler`
+replaced it.  The property's clauses hold for such a server with `OPTIONS` requests excluded and the CORS handler as
+the custom not-allowed handler (`assumptions`). -/
+theorem cors_preflight_never_dispatches (s : Server) (hc : s.cors = true) (m p : String) :
+    s.serveHTTP "OPTIONS" p = .preflight ∧
+    (m ≠ "OPTIONS" → s.serveHTTP m p = .router (s.router.serveHTTP m p)) := by
+  constructor
+  · simp [Server.serveHTTP, hc]
+  · intro hm
+    have : (m == "OPTIONS") = false := by simpa using hm
+    simp [Server.serveHTTP, this]
+
+theorem no_cors_is_the_router (s : Server) (hc : s.cors = false) (m p : String) :
+    s.serveHTTP m p = .router (s.router.serveHTTP m p) := by
+  simp [Server.serveHTTP, hc]
+
+example : (newServer [.cors]).cors = true ∧ (newServer [.cors]).router.notAllowed = some corsNA ∧
+    (newServer [.cors, .router]).cors = false ∧ (newServer [.cors, .notAllowed (some 8)]).router.notAllowed = some 8 := by decide
+
 end GoZero.C09
